@@ -27,8 +27,30 @@ fn opt_s(r: Option<SignedAmount>) -> String {
     }
 }
 
+// the public constants are part of the arithmetic's vocabulary (ZERO, ONE_PICO, ONE_XMR, min_value, max_value, default)
+fn consts_ok() -> bool {
+    Amount::ZERO.as_pico() == 0
+        && Amount::ONE_PICO.as_pico() == 1
+        && Amount::ONE_XMR.as_pico() == 1_000_000_000_000
+        && Amount::min_value().as_pico() == 0
+        && Amount::max_value().as_pico() == u64::MAX
+        && Amount::default() == Amount::ZERO
+        && SignedAmount::ZERO.as_pico() == 0
+        && SignedAmount::ONE_PICO.as_pico() == 1
+        && SignedAmount::ONE_XMR.as_pico() == 1_000_000_000_000
+        && SignedAmount::min_value().as_pico() == i64::MIN
+        && SignedAmount::max_value().as_pico() == i64::MAX
+        && SignedAmount::default() == SignedAmount::ZERO
+}
+
 fn op_unsigned(op: &str, form: &str, a: u64, b: u64) -> Option<String> {
+    if !consts_ok() {
+        return Some("ROUTE-MISMATCH amount constants".to_string());
+    }
     let x = Amount::from_pico(a);
+    if x.as_pico() != a || (x == Amount::from_pico(b)) != (a == b) || (x < Amount::from_pico(b)) != (a < b) {
+        return Some("ROUTE-MISMATCH Amount from_pico / as_pico / Eq / Ord".to_string());
+    }
     Some(match (op, form) {
         ("add", "checked") => opt_u(x.checked_add(Amount::from_pico(b))),
         ("sub", "checked") => opt_u(x.checked_sub(Amount::from_pico(b))),
@@ -74,7 +96,13 @@ fn op_unsigned(op: &str, form: &str, a: u64, b: u64) -> Option<String> {
 }
 
 fn op_signed(op: &str, form: &str, a: i64, b: i64) -> Option<String> {
+    if !consts_ok() {
+        return Some("ROUTE-MISMATCH amount constants".to_string());
+    }
     let x = SignedAmount::from_pico(a);
+    if x.as_pico() != a || (x == SignedAmount::from_pico(b)) != (a == b) || (x < SignedAmount::from_pico(b)) != (a < b) {
+        return Some("ROUTE-MISMATCH SignedAmount from_pico / as_pico / Eq / Ord".to_string());
+    }
     Some(match (op, form) {
         ("add", "checked") => opt_s(x.checked_add(SignedAmount::from_pico(b))),
         ("sub", "checked") => opt_s(x.checked_sub(SignedAmount::from_pico(b))),
@@ -132,6 +160,10 @@ pub fn run(op: &str, args: &[&str]) -> Option<String> {
             match *t {
                 "u" => {
                     let r = if *d == "with_suffix" {
+                        let (x, y) = (Amount::from_str_with_denomination(&s).ok(), s.parse::<Amount>().ok());
+                        if x != y || x != Amount::from_str(&s).ok() {
+                            return Some("ROUTE-MISMATCH Amount from_str / parse / from_str_with_denomination".to_string());
+                        }
                         Amount::from_str(&s)
                     } else {
                         Amount::from_str_in(&s, denom(d)?)
@@ -143,6 +175,10 @@ pub fn run(op: &str, args: &[&str]) -> Option<String> {
                 }
                 "s" => {
                     let r = if *d == "with_suffix" {
+                        let (x, y) = (SignedAmount::from_str_with_denomination(&s).ok(), s.parse::<SignedAmount>().ok());
+                        if x != y || x != SignedAmount::from_str(&s).ok() {
+                            return Some("ROUTE-MISMATCH SignedAmount from_str / parse / from_str_with_denomination".to_string());
+                        }
                         SignedAmount::from_str(&s)
                     } else {
                         SignedAmount::from_str_in(&s, denom(d)?)
@@ -160,6 +196,11 @@ pub fn run(op: &str, args: &[&str]) -> Option<String> {
             let text = match *t {
                 "u" => {
                     let a = Amount::from_pico(v.parse::<u64>().ok()?);
+                    let mut w = String::new();
+                    a.fmt_value_in(&mut w, d).ok()?;
+                    if w != a.to_string_in(d) || a.to_string() != format!("{}", a) || format!("{} {}", w, d) != a.to_string_with_denomination(d) {
+                        return Some("ROUTE-MISMATCH Amount fmt_value_in / to_string_in / to_string_with_denomination / to_string".to_string());
+                    }
                     match *mode {
                         "plain" => a.to_string_in(d),
                         "suffix" => a.to_string_with_denomination(d),
@@ -169,6 +210,11 @@ pub fn run(op: &str, args: &[&str]) -> Option<String> {
                 }
                 "s" => {
                     let a = SignedAmount::from_pico(v.parse::<i64>().ok()?);
+                    let mut w = String::new();
+                    a.fmt_value_in(&mut w, d).ok()?;
+                    if w != a.to_string_in(d) || a.to_string() != format!("{}", a) || format!("{} {}", w, d) != a.to_string_with_denomination(d) {
+                        return Some("ROUTE-MISMATCH SignedAmount fmt_value_in / to_string_in / to_string_with_denomination / to_string".to_string());
+                    }
                     match *mode {
                         "plain" => a.to_string_in(d),
                         "suffix" => a.to_string_with_denomination(d),
